@@ -365,6 +365,15 @@ Fixpoint mon (prev : view) (oks : list payload) (pend : list (nat * payload)) (i
               | BAlready | BInvalid _ | BConflict | BMismatch => negb (records_same prev v)
               | _ => false
               end then Some "C20:refused-request-changed-stored-records"
+      (* 3b. a malformed request is never accepted; a valid one is not refused for "conflict" while nothing is stored *)
+      else if match payload_of_op o, b with
+              | Some p, BOk | Some p, BStarted => is_some (check_req p)
+              | _, _ => false
+              end then Some "C20:malformed-request-accepted"
+      else if match o, b with
+              | OBoot _ _ _, BConflict | OFinish _ Ok, BConflict => negb (v_root prev)
+              | _, _ => false
+              end then Some "C20:bootstrap-refused-although-nothing-is-stored"
       (* 4. mismatching cluster id is refused *)
       else if match o, b with OWrong h, BAccepted => negb (exempt h) | OBoot _ hid _, BOk | OBegin _ hid _, BStarted => negb (hid =? the_cid)%Z | _, _ => false end
       then Some "C20:mismatched-cluster-id-accepted"
